@@ -30,7 +30,9 @@ Definition bind {A B} (r : res A) (f : A -> res B) : res B :=
   | OutOfFuel => OutOfFuel
   end.
 Notation "'do' x <- r ; k" := (bind r (fun x => k))
-  (at level 200, x pattern, r at level 100, k at level 200, right associativity).
+  (at level 200, x name, r at level 100, k at level 200, right associativity).
+Notation "'do' ' p <- r ; k" := (bind r (fun p => k))
+  (at level 200, p pattern, r at level 100, k at level 200, right associativity).
 
 Definition is_ok {A} (r : res A) : bool := match r with Ok _ => true | _ => false end.
 
